@@ -28,6 +28,8 @@ type OblReport struct {
 	OK       bool    `json:"ok"`
 	Theory   string  `json:"mode"`
 	Bytes    int     `json:"smt_bytes"`
+	ConfirmedBy  string `json:"confirmed_by,omitempty"`
+	Contradicted string `json:"contradicted_by,omitempty"`
 }
 
 type KnownFinding struct {
@@ -123,6 +125,8 @@ func runCheck(args []string) int {
 	cc.timeout = 60
 	if *tier == "thorough" {
 		cc.timeout = 300
+		// thorough: after the first definite answer, listen up to 10 s for a second opinion from a different solver
+		confirmWindow = 10
 	}
 	start := time.Now()
 	var overlay map[string][]byte
@@ -279,7 +283,8 @@ func (cc *checkCtx) discharge(quiet bool) {
 			}
 			results[i] = r
 			reports[i] = OblReport{Name: o.Name, Kind: o.Kind, Func: o.Func, Pos: o.Pos, Note: o.Note, Answer: r.Answer.String(), Backend: r.Backend,
-				Seconds: r.Seconds, Expected: o.Expect.String(), OK: r.Answer == o.Expect, Theory: o.vc.Mode, Bytes: len(q)}
+				Seconds: r.Seconds, Expected: o.Expect.String(), OK: r.Answer == o.Expect && r.Contradicted == "", Theory: o.vc.Mode, Bytes: len(q),
+				ConfirmedBy: r.ConfirmedBy, Contradicted: r.Contradicted}
 			if o.Expect == Sat {
 				// vacuity guard: the preconditions must not be refutable. With quantified assumptions the solvers often
 				// cannot exhibit a model (unknown); only a proof of inconsistency (unsat) fails the guard.
@@ -573,6 +578,16 @@ func (cc *checkCtx) writeEvidence(plan *PropertyPlan, wall float64, violations i
 		"functions_not_under_verifier_this_run": notVerified,
 		"obligation_list":          cc.reports,
 		"timeout_per_obligation_s": cc.timeout,
+	}
+	if confirmWindow > 0 {
+		n2 := 0
+		for _, r := range cc.reports {
+			if r.ConfirmedBy != "" {
+				n2++
+			}
+		}
+		cov["second_opinion"] = map[string]any{"window_s": confirmWindow, "obligations_confirmed_by_a_second_solver": n2,
+			"note": "thorough tier: after the first definite answer the check listens for the answer of a different solver binary; a contradiction counts as a failed obligation"}
 	}
 	if cc.extra != nil {
 		cov["extra_"+cc.extra.Level] = cc.extra.Coverage
